@@ -5,7 +5,8 @@
     - quadratic     : OCS (norm ++ gain), MGR, MEH (guarded), L2 (one norm per trait, unguarded)
     - L1            : sum_j |V_j . c| per trait (unguarded)
     - family        : mean EBV ++ family contributions (bincount), unguarded; the subset class assigns, not accumulates
-    - allele freq.  : PAFD, PAU, MOGS (subset only); the frequency is the binary64 value (1.0/(ploidy*k)) * count
+    - allele freq.  : PAFD, PAU, MOGS (subset only); the frequency is the binary64 quotient count / (ploidy*k)
+                      (the former code multiplied by the rounded reciprocal: [old_pfreq_of_count], kept as a regression witness)
     - max type      : OPV, genotype builder (subset only)
 
     Candidates' data are rationals (the generated data lie on dyadic grids, so the floats are these rationals);
@@ -89,8 +90,12 @@ Definition zget (G : list (list Z)) (i j : nat) : Z := nth j (nth i G []) 0%Z.
 (** geno[x,:,None].sum(0) at locus j *)
 Definition acount (G : list (list Z)) (s : list nat) (j : nat) : Z := sumZ (map (fun i => zget G i j) s).
 Definition popsize (ploidy : Z) (s : list nat) : Z := (ploidy * Z.of_nat (length s))%Z.
-(** pfreq = (1.0 / (ploidy * len(x))) * count      — binary64, rounded reciprocal *)
-Definition pfreq_f (ploidy : Z) (G : list (list Z)) (s : list nat) (j : nat) : float := frecipZ (acount G s j) (popsize ploidy s).
+(** pfreq = count / (ploidy * len(x))      — one correctly rounded binary64 division of two integers *)
+Definition pfreq_of_count (c N : Z) : float := fdivZ c N.
+Definition pfreq_f (ploidy : Z) (G : list (list Z)) (s : list nat) (j : nat) : float := pfreq_of_count (acount G s j) (popsize ploidy s).
+(** the FORMER code (before the repair):  pfreq = (1.0 / (ploidy * len(x))) * count  — rounded reciprocal.
+    Not used by [latent]; kept so that the refutation of the former behaviour stays a checked statement. *)
+Definition old_pfreq_of_count (c N : Z) : float := frecipZ c N.
 (** the exact frequency *)
 Definition pfreq_q (ploidy : Z) (G : list (list Z)) (s : list nat) (j : nat) : Q := inject_Z (acount G s j) / inject_Z (popsize ploidy s).
 
@@ -98,16 +103,18 @@ Definition pfreq_q (ploidy : Z) (G : list (list Z)) (s : list nat) (j : nat) : Q
 Definition pafd (ploidy : Z) (G : list (list Z)) (w tf : list (list Q)) (p t : nat) (s : list nat) : list Q :=
   map (fun q => sumf (fun j => mget w j q * Qabs' (mget tf j q - pfreq_q ploidy G s j)) (seq 0 p)) (seq 0 t).
 
-(** PAU as coded.  The tfreq setter computes  _tmajor = _calc_tminor(tfreq)  — mirrored here. *)
+(** PAU as coded.  The tfreq setter computes  _tminor = (tfreq == 0), _thet = (0 < tfreq < 1), _tmajor = (tfreq == 1). *)
 Definition t_minor (x : Q) : bool := Qeq_bool x 0.
 Definition t_major (x : Q) : bool := Qeq_bool x 1.
 Definition t_het (x : Q) : bool := negb (Qle_bool x 0) && negb (Qle_bool 1 x).
-Definition pau_unavail_code (pf : float) (tfv : Q) : bool :=
+Definition pau_unavail_gen (tmajor : Q -> bool) (pf : float) (tfv : Q) : bool :=
   let p_ltmajor := PrimFloat.ltb pf 1%float in
   let p_gtminor := PrimFloat.ltb 0%float pf in
   let p_het := p_ltmajor && p_gtminor in
-  let tmajor_as_coded := t_minor tfv in
-  negb ((p_ltmajor && t_minor tfv) || ((p_het && t_het tfv) || (p_gtminor && tmajor_as_coded))).
+  negb ((p_ltmajor && t_minor tfv) || ((p_het && t_het tfv) || (p_gtminor && tmajor tfv))).
+Definition pau_unavail_code : float -> Q -> bool := pau_unavail_gen t_major.
+(** the FORMER code (before the repair): the setter computed  _tmajor = _calc_tminor(tfreq).  Not used by [latent]. *)
+Definition old_pau_unavail_code : float -> Q -> bool := pau_unavail_gen t_minor.
 (** MOGS as coded: tfreq_fix_minor = tfreq <= 0, tfreq_fix_major = tfreq >= 1, heter = neither *)
 Definition mogs_unavail_code (pf : float) (tfv : Q) : bool :=
   let major_lost := PrimFloat.leb pf 0%float in
@@ -176,12 +183,27 @@ Inductive fdata :=
 | FOpv (H : list (list (list (list Q)))) (nb nt : nat)
 | FGb (H : list (list (list (list Q)))) (nb nt nbest : nat).
 
+(** the declared number of latent values (the [nlatent] property of the classes) *)
+Definition nlatent_of (fd : fdata) : nat :=
+  match fd with
+  | FLin _ t _ => t
+  | FOcs t _ _ => S t
+  | FMgr _ | FMeh _ => 1
+  | FL2 Cs => length Cs
+  | FL1 Vs => length Vs
+  | FFam t _ ids => t + nfam ids
+  | FPafd _ _ _ _ _ t | FPau _ _ _ _ _ t => t
+  | FMogs _ _ _ _ _ t => t + t
+  | FOpv _ _ nt | FGb _ _ nt _ => nt
+  end.
+
 Definition is_nil {A} (l : list A) : bool := match l with [] => true | _ => false end.
 (** contribution vector of a real/integer/binary decision vector; None = no value (nan) *)
 Definition contrib_of (guarded : bool) (x : list Q) : option (list Q) :=
   if guarded then Some (contrib_guard x) else if Qeq_bool (qsum x) 0 then None else Some (contrib_raw x).
 Definition omap {A B} (f : A -> B) (o : option A) : option B := match o with Some a => Some (f a) | None => None end.
 
+(** (an empty selection is outside every decision space — ndecn >= 1 — and has no value here) *)
 Definition latent (n : nat) (fd : fdata) (d : dec) : option (list lv) :=
   match d with
   | DSub s =>
